@@ -7,6 +7,13 @@ Definition b_at (s : sx) (i : nat) : bool := sx_get_bool (sx_nth s i).
 Definition enc_of (s : sx) : enc :=
   mkE (if (n_at s 0 =? 0)%N then EPk else EMsg) (n_at s 1) (n_at s 2) (n_at s 3) (b_at s 4) (b_at s 5) (n_at s 6).
 
+Definition kin_of (u : sx) : kin :=
+  match n_at u 0 with
+  | 0 => KiSend (n_at u 1) (n_at u 2)
+  | 1 => KiKeys (n_at u 1) (map (fun v => (n_at v 0, (n_at v 1, n_at v 2))) (sx_get_l (sx_nth u 2)))
+  | _ => KiMsg (n_at u 1) (n_at u 2) (enc_of (sx_nth u 3))
+  end%N.
+
 Definition input_of (s : sx) : input :=
   match n_at s 0 with
   | 0 => IAppSend (n_at s 1) (n_at s 2)
@@ -15,12 +22,8 @@ Definition input_of (s : sx) : input :=
   | 3 => IReceipt (n_at s 1) (n_at s 2) (b_at s 3)
   | 4 => IRestart
   | 6 => INotify (n_at s 1) (n_at s 2)
-  | 7 => let u := sx_nth s 2 in                      (* (7 n inner): killed while handling inner, after n commits *)
-         IKill (match n_at u 0 with
-                | 0 => KiSend (n_at u 1) (n_at u 2)
-                | 1 => KiKeys (n_at u 1) (map (fun v => (n_at v 0, (n_at v 1, n_at v 2))) (sx_get_l (sx_nth u 2)))
-                | _ => KiMsg (n_at u 1) (n_at u 2) (enc_of (sx_nth u 3))
-                end) (n_at s 1)
+  | 7 => IKill (kin_of (sx_nth s 2)) (n_at s 1)     (* (7 n inner): killed while handling inner, after n commits *)
+  | 8 => IReadFault (kin_of (sx_nth s 1))           (* (8 inner): inner aborted, the identities table was unreadable *)
   | _ => IWipe
   end%N.
 
